@@ -17,8 +17,8 @@ RULE = ('1-2 real ActiveObjects subscribe to a signal with queue_type fifo, lifo
 ASSUMPTIONS = ['anchor: docs/source/recipes.rst ("subscribes in a lifo way -> posted with post_lifo") and glossary.rst']
 PROBES = ['delivery_with_pending_events']
 PLAN = {
-  'quick': {'strata': {'pending': 3000}, 'wall_s': 300, 'chunk': 50, 'min_conclusive': 800},
-  'thorough': {'strata': {'pending': 80000}, 'wall_s': 900, 'chunk': 100, 'min_conclusive': 800},
+  'quick': {'strata': {'pending': 3000, 'fabric-stop': 1000}, 'wall_s': 300, 'chunk': 50, 'min_conclusive': 800},
+  'thorough': {'strata': {'pending': 80000, 'fabric-stop': 30000}, 'wall_s': 900, 'chunk': 100, 'min_conclusive': 800},
 }
 
 
@@ -41,12 +41,18 @@ def generate(seed, stratum, tier):
     burst.append([rng.choice(['post_fifo', 'post_lifo']), rng.randrange(nobj), rng.choice(['SA', 'SB'])])
   for _ in range(rng.randrange(1, 3)):
     burst.insert(rng.randrange(len(burst) + 1), ['publish', rng.randrange(nobj), 'SD', rng.choice([None, 1])])
+  if stratum == 'fabric-stop':
+    # the fabric is stopped while publications still wait in it (lagging delivery threads) and started again: whoever
+    # hands a waiting publication to the object, and whenever, it goes to the end its subscription names
+    burst += [['fabric_stop'], ['fabric_start'], ['sleep', 0.05]]
   clients = [c0 + burst]
   if rng.random() < 0.4:
     clients.append([['sleep', 0.001]] + [[rng.choice(['post_fifo', 'post_lifo']), rng.randrange(nobj), 'SC'] for _ in range(rng.randrange(1, 3))])
   sd = {'gran': rng.choice(['sync', 'line']), 'policy': 'starve', 's': rng.choice([0.5, 0.9]), 'victims': ['consumer'],
         'start': rng.randrange(0, 40), 'len': rng.choice([400, 2000, 10000])}
-  return {'objects': objs, 'queue_size': 500, 'clients': clients, 'kinds': {str(k): v for k, v in kinds.items()}, 'sched': sd}
+  if stratum == 'fabric-stop':
+    sd['victims'] = rng.choice([['consumer', 'fabric.lifo', 'fabric.fifo'], ['fabric.lifo', 'fabric.fifo'], ['consumer', 'fabric.lifo']])
+  return {'objects': objs, 'queue_size': 500, 'clients': clients, 'kinds': {str(k): v for k, v in kinds.items()}, 'sched': sd, 'stratum': stratum}
 
 
 def shrink_candidates(sc):
@@ -69,9 +75,17 @@ def execute(sc, sched):
         q = ac.replay_queue(run, oi)
         for seq, tn, op, uid, t_us, index_after, len_before in q['adds']:
           role = tn.split('#')[0]
-          if role not in ('fabric.fifo', 'fabric.lifo') or uid not in run.pubs:
+          if uid not in run.pubs:
             continue
-          kind = 'lifo' if role == 'fabric.lifo' else 'fifo'
+          # the end is named by the subscription: an object that subscribed in one way only gets every delivery at that
+          # end, whichever thread hands it over; one that subscribed both ways gets one at each end (told by the thread)
+          mine = sorted(set(s_['kind'] for s_ in run.subs if s_['obj'] == oi and s_['sig'] == run.pubs[uid]['sig']))
+          if len(mine) == 1:
+            kind = mine[0]
+          elif role in ('fabric.fifo', 'fabric.lifo'):
+            kind = 'lifo' if role == 'fabric.lifo' else 'fifo'
+          else:
+            continue
           if len_before >= 1:
             sim.probe('delivery_with_pending_events')
             res.nontrivial.append(hash((kind, min(len_before, 5), op == 'append')))
@@ -91,13 +105,14 @@ def execute(sc, sched):
           for oi in range(len(run.objs)):
             kinds = sorted(set(s['kind'] for s in run.subs if s['obj'] == oi and s['sig'] == p['sig'] and s['end'] is not None))
             q = ac.replay_queue(run, oi)
-            for kind in kinds:
-              role = 'fabric.' + kind
-              n = sum(1 for a in q['adds'] if a[3] == uid and a[1].split('#')[0] == role)
-              if n != 1:
-                res.violate('delivery-missing-for-kind', {'kind': kind, 'n': n, 'both': len(kinds) == 2},
-                            '%s subscribed to %s as %s; event %s was delivered %d time(s) by the %s thread' % (run.names[oi], p['sig'], kinds, uid, n, kind))
-                break
+            # one delivery per subscribed kind, whichever thread makes it
+            n = sum(1 for a in q['adds'] if a[3] == uid)
+            if kinds and n != len(kinds):
+              by_role = sorted(a[1].split('#')[0] for a in q['adds'] if a[3] == uid)
+              missing = [k for k in kinds if ('fabric.' + k) not in by_role] or kinds
+              res.violate('delivery-missing-for-kind', {'kind': missing[0], 'n': n, 'both': len(kinds) == 2},
+                          '%s subscribed to %s as %s; event %s was delivered %d time(s) (by %s), expected one delivery per subscribed kind' % (
+                            run.names[oi], p['sig'], kinds, uid, n, by_role))
             if res.outcome == 'violation':
               break
           if res.outcome == 'violation':
